@@ -886,6 +886,39 @@ func init() {
 	})
 	reg("strconv.Quote", func(in *Interp, fr *frame, a []Value) Value { return mkStr(strconv.Quote(strArg(a[0]).mustConcrete())) })
 	reg("strconv.Atoi", func(in *Interp, fr *frame, a []Value) Value { return in.atoi(fr, strArg(a[0])) })
+	// strconv.Parse*: the real functions on concrete text; ParseFloat of the decimal text of a symbolic
+	// float64 rendered with bit size 64 is that float again (shortest round-trip text)
+	errOrNil := func(in *Interp, fr *frame, err error) Value {
+		if err != nil {
+			return in.mkError(fr, mkStr(err.Error()))
+		}
+		return nilError()
+	}
+	reg("strconv.ParseFloat", func(in *Interp, fr *frame, a []Value) Value {
+		s := strArg(a[0]).norm()
+		bits := asInt(a[1])
+		if c, ok := s.Concrete(); ok {
+			f, err := strconv.ParseFloat(c, bits)
+			return Tuple{Float{K: types.Float64, C: f}, errOrNil(in, fr, err)}
+		}
+		if len(s.segs) == 1 && s.segs[0].A != nil && s.segs[0].A.Kind == "ftoa" && s.segs[0].A.Bits == 64 && bits == 64 {
+			f := s.segs[0].A.Arg.(Float)
+			return Tuple{Float{K: types.Float64, C: f.C, S: f.S}, nilError()}
+		}
+		panic(engineErr("ParseFloat on symbolic text " + s.Debug()))
+	})
+	reg("strconv.ParseInt", func(in *Interp, fr *frame, a []Value) Value {
+		n, err := strconv.ParseInt(strArg(a[0]).mustConcrete(), asInt(a[1]), asInt(a[2]))
+		return Tuple{Int{K: types.Int64, C: uint64(n)}, errOrNil(in, fr, err)}
+	})
+	reg("strconv.ParseUint", func(in *Interp, fr *frame, a []Value) Value {
+		n, err := strconv.ParseUint(strArg(a[0]).mustConcrete(), asInt(a[1]), asInt(a[2]))
+		return Tuple{Int{K: types.Uint64, C: n}, errOrNil(in, fr, err)}
+	})
+	reg("strconv.ParseBool", func(in *Interp, fr *frame, a []Value) Value {
+		b, err := strconv.ParseBool(strArg(a[0]).mustConcrete())
+		return Tuple{Bool{C: b}, errOrNil(in, fr, err)}
+	})
 
 	// ---- fmt ----
 	reg("fmt.Sprintf", func(in *Interp, fr *frame, a []Value) Value { return in.sprintf(fr, strArg(a[0]), a[1].([]Value)) })
